@@ -1,7 +1,7 @@
 (* C07/Proofs.v -- the functional-tree theorem: for every well-formed tree of the model,
    fprox returns THE proximal point of fval (all trees, all sizes, all admissible steps). *)
 From Coq Require Import ZArith QArith Reals Lra Lia List Bool Psatz.
-From Verif Require Import Base.Num Base.Vec Base.VecR C07.Model C07.Convex C07.Leaves C07.LeafThms C07.Rules C07.L2 C07.Compose C07.Sorting C07.Group.
+From Verif Require Import Base.Num Base.Vec Base.VecR C07.Model C07.Convex C07.Leaves C07.LeafThms C07.Rules C07.L2 C07.Compose C07.Sorting C07.Group C07.PerPoint.
 Import ListNotations.
 Local Open Scope R_scope.
 
@@ -22,6 +22,9 @@ Definition leaf_ok (k : leafR) (w : Rvec) : Prop :=
       (1 <= d)%nat /\ exists wb, allpos wb /\ length wb = m /\ w = concat (repeat wb d)
   | FSimplex d => 0 <= d /\ (1 <= n)%nat /\ exists c, uniform w c       (* sort-based: uniformly weighted space *)
   | FBall1 | FLInf => (1 <= n)%nat /\ uniform w 1                       (* sort-based: unweighted space *)
+  | FSumC _ => (1 <= n)%nat /\ exists c, uniform w c                    (* same offset for every entry: uniform weights *)
+  | FHuberG m d gamma =>
+      0 <= gamma /\ (1 <= d)%nat /\ exists wb, allpos wb /\ length wb = m /\ w = concat (repeat wb d)
   end.
 Definition leaf_vec_ok (k : leafR) : Prop :=
   match k with FL1 | FL2Sq | FConst _ | FBox _ _ | FIndZero _ | FGroupL1 _ _ false => True | _ => False end.
@@ -49,7 +52,12 @@ Fixpoint sig_ok (e : fexprR) (s : sigR) {struct e} : Prop :=
   | LScal c e' => sig_ok e' (sig_scale c s)
   | RScal c e' => sig_ok e' (sig_scale (c * c) s)
   | SSum _ e' | Transl _ e' => sig_ok e' s
-  | QPert _ _ _ _ => match s with SScal sg => 0 < sg | _ => False end
+  | QPert a _ _ e' =>
+      match s with
+      | SScal sg => 0 < sg
+      | SVec v => length v = fdim e' /\ allpos v /\ sig_ok e' (SVec (vmul v (vmul (qc a v) (qc a v))))
+      | SPair _ _ => False
+      end
   | Sep e1 e2 =>
       match s with
       | SScal sg => 0 < sg
@@ -147,8 +155,9 @@ Proof.
     split; [exact L|]. rewrite E. apply allpos_map_scale; [apply Rinv_0_lt_compat; assumption | exact P].
   - apply IHe; assumption.
   - apply IHe; tauto.
-  - destruct sg as [c0|v|a0 b]; try contradiction. rewrite sig_flat_scal.
-    split; [apply repeat_length | apply allpos_repeat; assumption].
+  - destruct sg as [c0|v|a0 b]; try contradiction.
+    + rewrite sig_flat_scal. split; [apply repeat_length | apply allpos_repeat; assumption].
+    + rewrite sig_flat_vec. destruct Hs as (L & P & _). split; assumption.
   - destruct W as [W1 W2]. unfold fdim in *; cbn [fweights]. rewrite app_length.
     destruct sg as [c0|v|a0 b].
     + rewrite !sig_flat_scal, <- repeat_app. unfold fdim.
@@ -249,6 +258,22 @@ Proof.
     destruct s as [sg|v|a b]; cbn [leaf_sig_ok leaf_vec_ok] in Hs; [|tauto|contradiction].
     cbn [needs_scalar]. eexists; split; [reflexivity|].
     apply (is_proxs_ext n (@leaf_val R _ _ FBallInf w)); try reflexivity. apply ballinf_leaf_prox; auto.
+  - (* Huber on a vector field *)
+    destruct Hk as (Hg & Hd1 & wb & Pwb & Lwb & Ew).
+    destruct s as [sg|v|a b]; cbn [leaf_sig_ok leaf_vec_ok] in Hs; [|tauto|contradiction].
+    cbn [needs_scalar]. eexists; split; [reflexivity|].
+    assert (Ln : n = (d * m)%nat).
+    { unfold n. rewrite Ew. clear -Lwb. induction d; cbn [repeat concat]; [reflexivity|]. rewrite app_length, IHd. lia. }
+    cbn [sigv]. rewrite Ln in *. rewrite Ew. apply ghuber_leaf_prox; auto.
+  - (* sum constraint on a uniformly weighted space *)
+    destruct Hk as (Hn & c0 & Hu). unfold uniform in Hu. fold n in Hu.
+    destruct s as [sg|v|a b]; cbn [leaf_sig_ok leaf_vec_ok] in Hs; [|tauto|contradiction].
+    assert (Hc : 0 < c0).
+    { rewrite Hu in Pw. destruct n; [lia|]. cbn [repeat] in Pw. inversion Pw; assumption. }
+    eexists; split; [reflexivity|].
+    cbn [sigv]. rewrite Hu at 2. replace (metric (repeat c0 n) (repeat sg n)) with (repeat (c0 / sg) n).
+    + apply sumc_leaf_prox; auto. apply Rdiv_lt_0_compat; assumption.
+    + clear. induction n; cbn [repeat]; [reflexivity|]. unfold metric, vdiv in *. cbn [vmap2]. rewrite <- IHn. numR. reflexivity.
 Qed.
 
 (* ---- the constant of proximal_quadratic_perturbation ---- *)
@@ -318,16 +343,31 @@ Proof.
     + cbn [fprox]. unfold prox_translation. rewrite Ep. reflexivity.
     + cbn [fval fweights sig_flat]. apply rule_translation; auto. apply (metric_len (fdim e)); auto.
   - (* quadratic perturbation *)
-    destruct W as (Ha & Hu & W). cbn [sig_ok] in Hs. destruct sg as [sg|v|a' b]; try contradiction.
+    destruct W as (Ha & Hu & W). cbn [sig_ok] in Hs.
     change (fdim (QPert a u c e)) with (fdim e) in *.
     set (u' := match u with Some u => u | None => map (fun _ => 0) (fweights e) end).
     assert (Lu : length u' = fdim e) by (unfold u'; destruct u; [assumption|apply map_length]).
+    destruct sg as [sg|v|a' b]; try contradiction.
+    2:{ (* element-valued step *)
+      destruct Hs as (Lv & Pv & Hs').
+      set (cv := qc a v) in *.
+      assert (Lc : length cv = fdim e) by (unfold cv, qc; rewrite map_length; assumption).
+      set (y := vmul cv (vsub (vmul cv x) (vmul (vmul v cv) u'))).
+      assert (Ly : length y = fdim e) by (unfold y; auto with vlen).
+      destruct (IHe W _ y Hs' Ly) as (q & Eq & Pq). rewrite sig_flat_vec in Pq.
+      destruct (model_quad_pert_vec (fdim e) (fval e) (fweights e) (fprox e) a u' c v x q Ha (fweights_allpos e W) Pv
+                  eq_refl Lv Lu Hx Eq Pq) as (p & Ep & Pp).
+      exists p. split.
+      - cbn [fprox]. numR. destruct (Rltb_spec a 0); [lra|]. fold u'. exact Ep.
+      - cbn [fval fweights sig_flat]. rewrite sig_flat_vec. revert Pp. apply is_proxs_ext. intros z Hz. numR.
+        unfold winner. f_equal. f_equal. unfold u'. destruct u as [u|]; [reflexivity|].
+        rewrite (wdot_zero_r (fdim e)) by auto. reflexivity. }
     destruct (quad_const_facts sg a Hs Ha) as (Hc & Hcc & Hc1).
     set (cc := 1 / sqrt (sg * 2 * a + 1)) in *.
     assert (Hsc : 0 < sg * (cc * cc)).
     { rewrite Hcc. apply Rmult_lt_0_compat; [assumption|]. apply Rinv_0_lt_compat. nra. }
     pose proof (sig_ok_scal e W _ Hsc) as Hs'.
-    set (y := vscal cc (vlin cc x (- (sg * cc)) u')).
+    set (y := vscal cc (vsub (vscal cc x) (vscal (sg * cc) u'))).
     assert (Ly : length y = fdim e) by (unfold y; auto with vlen).
     destruct (IHe W (SScal (sg * (cc * cc))) y Hs' Ly) as (p & Ep & Pp).
     exists p. split.
@@ -549,4 +589,19 @@ Proof.
   set (D := wdot (fweights e) (vsub p1 p2) (vsub x1 x2)) in *.
   destruct (Rle_dec A B) as [|N]; [assumption|]. exfalso. apply Rnot_le_lt in N.
   assert (A * A <= D * D) by nra. assert (A * A <= A * B) by lra. nra.
+Qed.
+
+(* FunctionalDefaultConvexConjugate(f).proximal with an element-valued step *)
+Theorem fprox_default_convex_conj_vec (e : fexprR) (fs : Rvec -> option R) (v x : Rvec) :
+  wf e -> allpos v -> length v = fdim e -> length x = fdim e -> sig_ok e (SVec (vinv v)) ->
+  is_conj (fdim e) (fweights e) (fval e) fs ->
+  exists p, prox_convex_conj (fprox e) (SVec v) x = Ok p /\
+            is_proxs (fdim e) fs (metric (fweights e) v) x p.
+Proof.
+  intros W Pv Lv Hx Hs Hc.
+  assert (Li : length (vinv v) = fdim e) by (unfold vinv; rewrite map_length; assumption).
+  destruct (fprox_proxs_all e W (SVec (vinv v)) (vmul (vinv v) x) Hs ltac:(auto with vlen)) as (q & Eq & Pq).
+  rewrite sig_flat_vec in Pq.
+  apply (model_convex_conj_vec (fdim e) (fval e) fs (fweights e) (fprox e) v x q); auto.
+  apply fweights_allpos; assumption.
 Qed.
